@@ -58,6 +58,24 @@ def is_setdefault(n):
             and n.func.value.id == 'kwargs')
 
 
+def ensure_attr(st, expr_reads):
+    """`if not hasattr(self, 'a'): self.a = <self-free expr>` (no else): the attribute it creates when missing, else None.
+    Same meaning as `try: self.a / except AttributeError: self.a = …` (hasattr swallows AttributeError only)."""
+    if not (isinstance(st, ast.If) and not st.orelse and len(st.body) == 1):
+        return None
+    t, b = st.test, st.body[0]
+    if not (isinstance(t, ast.UnaryOp) and isinstance(t.op, ast.Not) and isinstance(t.operand, ast.Call)
+            and isinstance(t.operand.func, ast.Name) and t.operand.func.id == 'hasattr' and len(t.operand.args) == 2
+            and not t.operand.keywords and isinstance(t.operand.args[0], ast.Name) and t.operand.args[0].id == 'self'
+            and isinstance(t.operand.args[1], ast.Constant) and isinstance(t.operand.args[1].value, str)):
+        return None
+    a = t.operand.args[1].value
+    if not (isinstance(b, ast.Assign) and len(b.targets) == 1 and is_self_attr(b.targets[0]) and b.targets[0].attr == a
+            and not a.startswith('__') and not expr_reads(b.value)):
+        return None
+    return a
+
+
 def is_super_init(n):
     return (isinstance(n, ast.Call) and isinstance(n.func, ast.Attribute)
             and n.func.attr == '__init__' and isinstance(n.func.value, ast.Call)
@@ -397,6 +415,10 @@ class Extractor:
             if isinstance(st, ast.If):
                 if nested:
                     bad(st, 'if inside a loop of __init__', mod)
+                a_ = ensure_attr(st, lambda e: self.expr_reads(e, mod))
+                if a_ is not None:
+                    evs.append(('ensure', a_))
+                    return
                 # pattern A: both branches assign the same attributes from self-free expressions
                 reads(st.test)
                 w1 = write_only_branch(st.body)
@@ -491,7 +513,9 @@ class Extractor:
                     return None
                 for n in ast.walk(t):
                     if not isinstance(n, (ast.Compare, ast.Name, ast.Constant, ast.Subscript,
-                                          ast.Eq, ast.NotEq, ast.Load, ast.expr_context)):
+                                          ast.Eq, ast.NotEq, ast.In, ast.NotIn, ast.Is, ast.IsNot,
+                                          ast.BoolOp, ast.And, ast.Or, ast.UnaryOp, ast.Not, ast.USub,
+                                          ast.Tuple, ast.List, ast.Load, ast.expr_context)):
                         return None
                 return bool(eval(compile(ast.Expression(t), '<test>', 'eval'), {'__builtins__': {}},
                                  dict(consts)))
@@ -510,12 +534,23 @@ class Extractor:
                     if isinstance(n, ast.Name) and n.id in ('setattr', 'delattr', 'vars'):
                         bad(n, 'reflection inside a summarised method', mod)
 
+        def may_return(stmts):
+            return any(isinstance(n, ast.Return) for st in stmts for n in ast.walk(st))
+
         def top(stmts):
-            for st in stmts:
+            """events of a statement list every statement of which is certainly reached; True when the list certainly
+            ends the method (`return`).  After a statement that MAY return (a `return` under a test that is not known,
+            or in a loop) the rest runs on some paths only: its loads become mayRead, its attribute writes are rejected."""
+            for i, st in enumerate(stmts):
                 if isinstance(st, ast.Expr) and isinstance(st.value, ast.Constant):
                     continue
                 if isinstance(st, ast.Pass):
                     continue
+                if isinstance(st, ast.Return):
+                    if st.value is not None:
+                        for r in self.expr_reads(st.value, mod):
+                            evs.append(('read', r))
+                    return True
                 if isinstance(st, ast.Try):
                     # try: self.a  except AttributeError: self.a = X   → ensure a
                     ok = (len(st.body) == 1 and isinstance(st.body[0], ast.Expr)
@@ -551,6 +586,9 @@ class Extractor:
                     elif not isinstance(t, ast.Name):
                         bad(st, 'unsupported assignment target in method', mod)
                     continue
+                if isinstance(st, ast.If) and ensure_attr(st, lambda e: self.expr_reads(e, mod)) is not None:
+                    evs.append(('ensure', ensure_attr(st, lambda e: self.expr_reads(e, mod))))
+                    continue
                 if isinstance(st, ast.If):
                     v = static_test(st.test)
                     if v is None:
@@ -558,18 +596,23 @@ class Extractor:
                             evs.append(('read', r))
                         nested(st.body)
                         nested(st.orelse)
-                    elif v:
-                        top(st.body)
-                    else:
-                        top(st.orelse)
+                        if may_return(st.body) or may_return(st.orelse):
+                            nested(stmts[i + 1:])
+                            return False
+                    elif top(st.body if v else st.orelse):
+                        return True         # the arm taken returns: the rest of the method is not executed
                     continue
                 if isinstance(st, ast.For):
                     for r in self.expr_reads(st.iter, mod):
                         evs.append(('read', r))
                     nested(st.body)
                     nested(st.orelse)
+                    if may_return(st.body) or may_return(st.orelse):
+                        nested(stmts[i + 1:])
+                        return False
                     continue
                 bad(st, 'unsupported statement in summarised method: %s' % type(st).__name__, mod)
+            return False
 
         top(node.body)
         return evs
